@@ -206,15 +206,16 @@ theorem written_collection_chains (cfg : Cfg) (c : Coll) (rs : List Rec) (hw : w
     ∃ tch : List (Str × List Rec), rs = recsOf tch ∧ (∀ p ∈ tch, IsChain p.2) ∧
       (∀ p ∈ tch, ∀ r ∈ p.2, Model.Gb.tagOf r = .ok p.1) ∧ tch.map (·.1) = (childrenOf c).filterMap itemTag := by
   unfold writeModel at hw
-  simp only [bind, Except.bind] at hw
-  cases hm : mapMR (itemToFeatures cfg c.seq) (childrenOf c) with
-  | error e => simp [hm] at hw
-  | ok rss =>
-    simp only [hm, pure, Except.pure, Except.ok.injEq] at hw
-    subst hw
-    obtain ⟨tch, rfl, h1, h2, h3⟩ := items_chains cfg c.seq (childrenOf c) rss
-      (fun it hit => hall it ((mem_childrenOf c it).mp hit)) hm
-    exact ⟨tch, rfl, h1, h2, h3⟩
+  split at hw
+  · exact absurd hw (by simp)
+  · split at hw
+    · exact absurd hw (by simp)
+    · next rss hm =>
+      simp only [Except.ok.injEq] at hw
+      subst hw
+      obtain ⟨tch, rfl, h1, h2, h3⟩ := items_chains cfg c.seq (childrenOf c) rss
+        (fun it hit => hall it ((mem_childrenOf c it).mp hit)) hm
+      exact ⟨tch, rfl, h1, h2, h3⟩
 
 /-- **T2, grouping part**: a written collection of single-transcript genes whose effective locus tags increase along
     the file, whose records all pass `validate_seqfeature` and which is a fixed point of the parser's position sort, is
